@@ -1,5 +1,11 @@
 package server
 
+import (
+	"github.com/snower/slock/protocol"
+	"github.com/snower/slock/protocol/protobuf"
+	"google.golang.org/protobuf/proto"
+)
+
 // C12 (kernel): election safety at one acceptor.  The real acceptor functions
 // (ArbiterMember.DoSelfProposal / DoSelfCommit — the same rules as the remote
 // handlers commandHandleProposalCommand / commandHandleCommitCommand) run on an
@@ -183,6 +189,110 @@ func vfH_C12_compare() {
 	}
 	if !same {
 		vfAssert(ab == -ba, "C12: the log-position order is not antisymmetric")
+	}
+	vfReach("end")
+}
+
+// ---------------------------------------------------------------------------
+// The remote acceptor handlers (REPL_PROPOSAL / REPL_COMMIT as received from another
+// member; protobuf payloads go through the executor's Marshal/Unmarshal stub and through
+// the real protobuf natively).
+
+func init() {
+	vfHarnesses["C12_remote"] = vfH_C12_remote
+	vfHarnesses["C12_remote_single"] = vfH_C12_remote_single
+}
+
+// vfRemote: the acceptor A receives calls from member B over B's server-side protocol object.
+func vfRemote(env *vfEnv, m *ArbiterManager) *BinaryServerProtocol {
+	bp := NewBinaryServerProtocol(env.slock, NewStream(&vfConn{}))
+	m.members[1].server = NewArbiterServer(bp)
+	return bp
+}
+
+func vfRemoteProposal(m *ArbiterManager, bp *BinaryServerProtocol, id uint64, host string, aofId [16]byte) bool {
+	req := protobuf.ArbiterProposalRequest{ProposalId: id, AofId: m.EncodeAofId(aofId), Host: host}
+	data, err := proto.Marshal(&req)
+	if err != nil {
+		vfFail("C12: harness: cannot marshal")
+	}
+	res, _ := m.commandHandleProposalCommand(bp, protocol.NewCallCommand("REPL_PROPOSAL", data))
+	return res != nil && res.Result == 0 && res.ErrType == ""
+}
+
+func vfRemoteCommit(m *ArbiterManager, bp *BinaryServerProtocol, id uint64, host string, aofId [16]byte) bool {
+	req := protobuf.ArbiterCommitRequest{ProposalId: id, AofId: m.EncodeAofId(aofId), Host: host}
+	data, err := proto.Marshal(&req)
+	if err != nil {
+		vfFail("C12: harness: cannot marshal")
+	}
+	res, _ := m.commandHandleCommitCommand(bp, protocol.NewCallCommand("REPL_COMMIT", data))
+	return res != nil && res.Result == 0 && res.ErrType == ""
+}
+
+// C12_remote: one proposal or commit delivered through the remote handler; same rules as the self path.
+func vfH_C12_remote() {
+	env, m := vfArbiter(false)
+	bp := vfRemote(env, m)
+	v := m.voter
+	v.proposalId, v.commitId = vfU64("proposalId"), vfU64("commitId")
+	if vfChoice("pending", 2) == 1 {
+		v.proposalHost = "B"
+	}
+	p0, c0, h0 := v.proposalId, v.commitId, v.proposalHost
+	id := vfU64("id")
+	host := vfHostChoice("host")
+	var aofId [16]byte
+	if vfChoice("kind", 2) == 0 {
+		if vfRemoteProposal(m, bp, id, host, aofId) {
+			vfReach("proposal-accepted")
+			vfAssert(id > p0 && id > c0, "C12: (remote) a proposal was accepted whose number is not above the accepted and committed numbers")
+			vfAssert(h0 == "", "C12: (remote) a proposal was accepted while a commit is outstanding")
+			vfAssert(host != "Z", "C12: (remote) a proposal for an unknown host was accepted")
+			vfAssert(v.proposalId == id && v.commitId == c0, "C12: (remote) accepting a proposal changed more than the accepted number")
+		} else {
+			vfAssert(v.proposalId == p0 && v.commitId == c0 && v.proposalHost == h0, "C12: (remote) a rejected proposal changed the acceptor's state")
+		}
+	} else {
+		if vfRemoteCommit(m, bp, id, host, aofId) {
+			vfReach("commit-accepted")
+			vfAssert(id == p0, "C12: (remote) a commit was accepted for a number other than the accepted proposal")
+			vfAssert(id > c0, "C12: (remote) a commit was accepted twice (or below the committed number)")
+			vfAssert(v.commitId == id && v.proposalHost == host, "C12: (remote) accepting a commit did not record it")
+		} else {
+			vfAssert(v.proposalId == p0 && v.commitId == c0 && v.proposalHost == h0, "C12: (remote) a rejected commit changed the acceptor's state")
+		}
+	}
+	vfAssert(v.proposalId >= p0 && v.commitId >= c0, "C12: (remote) an accepted or committed number decreased")
+	vfReach("end")
+}
+
+// C12_remote_single: C12_single through the remote handlers.
+func vfH_C12_remote_single() {
+	env, m := vfArbiter(false)
+	bp := vfRemote(env, m)
+	v := m.voter
+	v.proposalId, v.commitId = vfU64("proposalId"), vfU64("commitId")
+	p1, p2 := vfU64("p1"), vfU64("p2")
+	vfAssume(p1 != p2)
+	var aofId [16]byte
+	c1, c2 := false, false
+	for step := 0; step < 4; step++ {
+		switch vfChoice(vfName("msg", step), 4) {
+		case 0:
+			vfRemoteProposal(m, bp, p1, "B", aofId)
+		case 1:
+			if vfRemoteCommit(m, bp, p1, "B", aofId) {
+				c1 = true
+			}
+		case 2:
+			vfRemoteProposal(m, bp, p2, "C", aofId)
+		case 3:
+			if vfRemoteCommit(m, bp, p2, "C", aofId) {
+				c2 = true
+			}
+		}
+		vfAssert(!(c1 && c2), "C12: (remote) one acceptor accepted the commits of two overlapping candidacies")
 	}
 	vfReach("end")
 }
